@@ -16,7 +16,6 @@
   Known finding mirrored by the model: `qUnbondingsByDelegator` ranges over whitelisted assets only.
 -/
 import AllianceProofs
-import Generated.Arith
 import AllianceModel.Query
 namespace Alliance
 namespace C20
@@ -230,49 +229,6 @@ example :
     qUnbondings w 0 10 0 = [(0, 100, 0, 5), (0, 200, 0, 7)] ∧ specUnbondings w 0 10 0 = [(0, 100, 0, 5), (0, 200, 0, 7)] := by
   decide
 
-
-/-- fact (regenerated from x/alliance/types/keys.go on every run): a fingerprint of the key prefixes and of every key builder
-    and parser — the byte layout the model's "store iteration = key order" and the index → bucket access paths rest on. Any
-    edit there (a dropped length prefix, a slice cut with the wrong length field) breaks this `rfl`; comments and
-    formatting do not -/
-theorem store_key_layout_as_modelled : Generated.keyFunctions = [
-  ("<const block 1>", "387c752da15c8008"),
-  ("<var block 2>", "40e9317f0eeaf87f"),
-  ("GetAssetKey", "9392c2c3dd4a2fa3"),
-  ("GetDelegationKey", "097541cb59baf445"),
-  ("GetDelegationsKeyForAllDenoms", "de369258a2b8c884"),
-  ("GetDelegationsKey", "55fa26996d0b9924"),
-  ("GetRedelegationsKeyByDelegator", "fd8563c1a17ce891"),
-  ("GetRedelegationsKeyByDelegatorAndDenom", "da48d033934e7925"),
-  ("GetRedelegationsKey", "860e2572a0c2f325"),
-  ("GetRedelegationKey", "3286f54879d61fb9"),
-  ("GetRedelegationQueueKey", "74611b54bb02975e"),
-  ("GetRedelegationIndexKey", "440ec168f5ffe0b0"),
-  ("GetRedelegationsIndexOrderedByValidatorKey", "848d3656a72d3fbb"),
-  ("ParseRedelegationIndexForRedelegationKey", "bd41b1a3934d4ab7"),
-  ("GetUnbondingIndexKey", "29b23a89f7c2fd0b"),
-  ("GetPartialUnbondingKeySuffix", "395abccff980339c"),
-  ("GetTimeFromUndelegationKey", "3e94f879bbae4530"),
-  ("GetUndelegationsIndexOrderedByValidatorKey", "5d11b8db8575f89f"),
-  ("ParseUnbondingIndexKeyToUndelegationKey", "60a1b3cee39fa68c"),
-  ("ParseUnbondingIndexKeyForDenom", "480afe72182f7d0a"),
-  ("ParseUnbondingIndexKeyForValidator", "91064f8f0388b1f3"),
-  ("ParseRedelegationQueueKey", "dc98b58ff3f9c85a"),
-  ("CreateDenomAddressPrefix", "7891a6bb5205e58e"),
-  ("ParseRedelegationKeyForCompletionTime", "73e8cde4026368ee"),
-  ("ParseRedelegationPaginationKeyTime", "ed875ab6fe691745"),
-  ("ParseUndelegationQueueKeyForCompletionTime", "f7a7134d98e126b5"),
-  ("GetUndelegationQueueKeyByTime", "e5c5ac9f6b469637"),
-  ("GetUndelegationDelAddressKey", "3e5643023ed7c47b"),
-  ("GetUndelegationQueueKey", "947aba3876b5d807"),
-  ("GetAllianceValidatorInfoKey", "6b21fba2066bf6c9"),
-  ("ParseAllianceValidatorKey", "313ce2fa4ed39c74"),
-  ("GetRewardWeightChangeSnapshotKey", "8af7a87a5a24dff9"),
-  ("ParseRewardWeightChangeSnapshotKey", "722d2227419213aa"),
-  ("GetRewardWeightDecayQueueByTimestampKey", "7be4ca1153a2cf67"),
-  ("GetRewardWeightDecayQueueKey", "9017ef2faf1b8823"),
-  ("ParseRewardWeightDecayQueueKeyForDenom", "d290334da71948ea")
-] := rfl
 
 end C20
 end Alliance
